@@ -329,9 +329,9 @@ func parseBody(m *Msg) string {
 			if !(ok1 && ok2 && ok3 && ok4 && ok5 && ok6 && ok7) {
 				return fmt.Sprintf("RowDescription: field %d of %d truncated", i, n)
 			}
-			if d.Format != 0 && d.Format != 1 {
-				return fmt.Sprintf("RowDescription: field %d format code %d", i, d.Format)
-			}
+			// (the value of the format code is not part of the framing grammar: a
+			// server echoing an inadmissible client-supplied code is judged by the
+			// format-rule model of C08, not here)
 			m.Cols = append(m.Cols, d)
 		}
 		return exact()
